@@ -144,7 +144,11 @@ def rule_V2(ctx) -> None:
         fn = mod.func(f"Message.{name}")
         ctx.analysed(f"Message.{name}")
         src = ast.unparse(fn)
-        wholesale = "__dict__.update(" in src or "__dict__ = " in src
+        selfname = fn.args.args[0].arg
+        updates = [n for n in ast.walk(fn) if isinstance(n, ast.Call) and isinstance(n.func, ast.Attribute) and n.func.attr == "update" and ast.unparse(n.func.value).endswith("__dict__")]
+        wholesale = any(u.args and "__dict__" in ast.unparse(u.args[0]) and selfname in ast.unparse(u.args[0]) for u in updates) or "__dict__ = " in src
+        by_keyword = {k.arg for u in updates for k in u.keywords if k.arg} | \
+                     {key.value for u in updates for a in u.args if isinstance(a, ast.Dict) for key in a.keys if isinstance(key, ast.Constant)}
         for attr, writers in sorted(indep.items()):
             assigned = False
             for n in ast.walk(fn):
@@ -157,7 +161,7 @@ def rule_V2(ctx) -> None:
                 if isinstance(n, ast.Call) and ast.unparse(n.func) in ("setattr", "object.__setattr__") and any(isinstance(a, ast.Constant) and a.value == attr for a in n.args):
                     assigned = True
             cname = f"{name}:transfers[{attr}]"
-            if assigned or wholesale:
+            if assigned or wholesale or attr in by_keyword:
                 ctx.proved("V2", cname, mod.loc(fn))
             else:
                 ctx.refuted("V2", cname, "never-assigned", mod.loc(fn),
@@ -239,6 +243,16 @@ def rule_V3(ctx) -> None:
                 v = e.data[1]
                 if not (v[0] == "call" and dotted(v[1]).split(".")[-1] == "deepcopy"):
                     bad.append((p, e))
+    comps = _comp_transfers(paths)
+    if not n_store and comps:
+        shallow = [v for _, v, _ in comps if not (v[0] == "call" and dotted(v[1]).split(".")[-1] == "deepcopy")]
+        if shallow:
+            ctx.refuted("V3", "__deepcopy__:every-field-deep-copied", "shallow-path", mod.loc(fn),
+                        f"a field value reaches the new message without deepcopy ({show(shallow[0])}): containers are shared between original and copy",
+                        "d = deepcopy(m); d.map_field['k'] = 1; assert 'k' not in m.map_field")
+        else:
+            ctx.proved("V3", "__deepcopy__:every-field-deep-copied", mod.loc(fn), f"{len(comps)} comprehension transfers, all through deepcopy")
+        return
     if not n_store:
         src = ast.unparse(fn)
         if "deepcopy(" in src:
@@ -266,6 +280,23 @@ def rule_V4(ctx) -> None:
             ctx.refuted("V4", f"{name}:through-the-wire", "bypass", mod.loc(fn), f"{name} returns {rets}; pickling is expected to go through {must}")
 
 
+def _comp_transfers(paths):
+    """(key, value, conditions) of the dict comprehensions over the raw field values that feed a constructor call"""
+    from ..sym import walk
+    out = []
+    seen = set()
+    for p in paths:
+        for e in p.events:
+            if e.kind != "call" or not isinstance(e.data, tuple):
+                continue
+            for t in walk(e.data):
+                if t[0] == "call" and t[1] == N("$dictcomp") and t not in seen and t[2] and t[2][0][0] == "tuple" and len(t[2][0][1]) == 2:
+                    if "__raw_get" in show(t) or "PLACEHOLDER" in show(t):
+                        seen.add(t)
+                        out.append((t[2][0][1][0], t[2][0][1][1], [c for tag, c in t[3] if tag == "if"]))
+    return out
+
+
 def rule_V8(ctx) -> None:
     """copies transfer every field that holds something: a field is left out of the copy only when its raw value is the placeholder"""
     mod = ctx.repo.mod(M_INIT)
@@ -290,6 +321,13 @@ def rule_V8(ctx) -> None:
                 others = {show(k): v for k, v in p.valuation.items() if (k, v) not in ph}
                 skipped = (p, others)
         name = f"{q.split('.')[-1]}:transfers-every-set-field"
+        if n == 0:
+            # comprehension form: {name: f(raw) for ... if raw is not PLACEHOLDER}
+            for k, v, conds in _comp_transfers(paths):
+                n += 1
+                extra = [c for c in conds if not (c[0] == "op" and c[1] == "not" and c[2][0] == "op" and c[2][1] == "is" and show(c[2][3]) == "PLACEHOLDER")]
+                if extra:
+                    skipped = (None, {show(c): True for c in extra})
         if n == 0:
             ctx.inconclusive("V8", name, "field transfer loop not recognised", mod.loc(fn))
         elif skipped:
